@@ -275,7 +275,7 @@ def streamContent (p : Puller) (s : Script) (codec : Codec) : Option Bytes :=
 
 theorem expected_eq (p : Puller) (s : Script) (codec : Codec) :
     expected p s codec =
-      if s.openOk && tagsOk p s && (!p.verifies || s.verifyOk) && s.renameOk && s.syncOk then
+      if s.openOk && preOk p s && (!p.verifies || s.verifyOk) && s.renameOk && s.syncOk then
         (streamContent p s codec).bind (fit s.writeFault) else none := by
   unfold expected streamContent
   split
@@ -477,7 +477,7 @@ theorem run_of_expected_none (p : Puller) (s : Script) (codec : Codec)
         Op.create ∉ (run canonical p s codec).ops.tail)) ∧
     Op.rename ∉ (run canonical p s codec).ops := by
   unfold run
-  by_cases hg : (s.openOk && tagsOk p s) = true
+  by_cases hg : (s.openOk && preOk p s) = true
   · rw [if_pos hg]
     have hb : good (envOf p s codec) p = false := by
       rw [good_eq, streamGood_envOf]
@@ -492,7 +492,7 @@ theorem run_of_expected_none (p : Puller) (s : Script) (codec : Codec)
       | some c =>
         rw [hsc] at h hst
         simp only [Option.bind_some] at h
-        cases hx : (s.openOk && tagsOk p s && (!p.verifies || s.verifyOk) && s.renameOk && s.syncOk) with
+        cases hx : (s.openOk && preOk p s && (!p.verifies || s.verifyOk) && s.renameOk && s.syncOk) with
         | false =>
           rw [hg] at hx
           cases hv : (!p.verifies || s.verifyOk) <;> cases hr : s.renameOk <;> cases hs : s.syncOk <;> simp_all
